@@ -136,7 +136,7 @@ func (r *ring) removeHost(hostID string) bool {
 		r.hostIPToUUID = make(map[string]string)
 	}
 
-	h, ok := r.hosts[hostID]
+	_, ok := r.hosts[hostID]
 	if ok {
 		for i, host := range r.hostList {
 			if host.HostID() == hostID {
@@ -144,7 +144,14 @@ func (r *ring) removeHost(hostID string) bool {
 				break
 			}
 		}
-		delete(r.hostIPToUUID, h.nodeToNodeAddress().String())
+		// drop the address entries that point to this host id; the entry filed
+		// under the host's current address may meanwhile belong to another host
+		// that took the address over
+		for ip, id := range r.hostIPToUUID {
+			if id == hostID {
+				delete(r.hostIPToUUID, ip)
+			}
+		}
 	}
 	delete(r.hosts, hostID)
 	r.mu.Unlock()
